@@ -1494,6 +1494,12 @@ fn assignment_stmt_to_asg_stmt(
                         // In Julia, `x::UInt = -1` throws `InexactError`.
                         context.insert_error(CastError, assignment_stmt);
                     }
+                } else if types::can_cast_literal(&symbol_type, expr_type) {
+                    // As in a declaration, an integer literal takes the type of the target
+                    // if the target can represent integers.
+                    expr = asg::Cast::new(expr, symbol_type).to_texpr()
+                } else {
+                    context.insert_error(IncompatibleTypesError, assignment_stmt);
                 }
             } else {
                 let promoted_type = types::promote_types(&symbol_type, expr_type);
